@@ -256,6 +256,36 @@ func rulesC09(c *Ctx) {
 		c.Pin("hand-off sends", n, 7)
 	})
 
+	c.Rule("R-C09-8", "an event that carries only an id is still an event: Event.Empty is true only when every field of Event is empty, so a priming event (id, no data) is yielded and its id becomes the resume cursor", func() {
+		em := c.Fn(pM, "Event", "Empty")
+		evT := c.P.LookupType(pM, "Event")
+		c.Need(evT != nil, "mcp.Event")
+		st := evT.Underlying().(*types.Struct)
+		rets := em.Returns()
+		c.Need(len(rets) == 1 && len(rets[0].Results) == 1, "Event.Empty: a single return expression")
+		var atoms []Atom
+		splitAtoms(rets[0].Results[0], true, &atoms)
+		for i := 0; i < st.NumFields(); i++ {
+			fld := st.Field(i)
+			tested := hasAtom(atoms, func(a Atom) bool {
+				if !a.Val || isCompound(a.E) {
+					return false
+				}
+				found := false
+				ast.Inspect(a.E, func(n ast.Node) bool {
+					if sel, ok := n.(*ast.SelectorExpr); ok && em.IsField(sel, fld) {
+						found = true
+					}
+					return true
+				})
+				return found
+			})
+			c.Check(tested, "Event.Empty:tests-"+fld.Name(), em, rets[0], "Empty() is a conjunction with one conjunct about %s", fld.Name())
+		}
+		c.Pin("fields of Event", st.NumFields(), 4)
+	})
+	c.Import("R-C09-9", "what a resumed stream replays in one burst is still handed to the session one notification at a time: only calls declare themselves asynchronous in ClientSession.handle", "C03", "R-C03-5", func(k string) bool { return strings.Contains(k, "ClientSession") })
+
 	c.Import("R-C09-6", "the client's event reader accepts events of any size (a line-length limit turns every large message into a dead stream and an endless resume loop)", "C19", "R-C19-6", func(k string) bool { return strings.HasPrefix(k, "scanEvents") })
 	c.Import("R-C09-7", "a failed POST or a transient status is a per-message rejection, not a broken connection: the session survives to resume", "C13", "R-C13-5", nil)
 
